@@ -44,6 +44,12 @@ def model_layer(run, tier):
     if not pr["all_proved"]:
         run.model_drift("TLAPS did not prove all obligations of proofs/Localize.tla (%s of %s)" % (pr["proved"], pr["obligations"]))
     if tier == "thorough":
+        # liveness: get_clusters returns (the merge work-list and the counting loops end) under weak fairness of its own steps
+        res = tlc.run("SBC.tla", "SBC_live3.cfg", timeout=1800, must_pass=False)
+        if res.violated or res.error:
+            run.model_drift("SBC.tla Terminates not established at N=3: %s" % (res.violated or res.error))
+        else:
+            run.add_model(res, "SBC_live3: <>(pc = done) under WF(Pipeline), N=3")
         res = tlc.run("SBC.tla", "SBC_sim4.cfg", simulate={"num": 300000, "depth": 60, "seed": 11}, timeout=1800)
         if res.violated:
             raise MachineryError("design model SBC.tla violates %s in simulation N=4" % res.violated)
